@@ -183,7 +183,12 @@ class Scheduler(object):
                 names.add((rel, code.co_name))
             for nm in names:
                 count[nm] = count.get(nm, 0) + 1
+        self._executed_by_any = set(count)
         return set(k for k, v in count.items() if v >= 2)
+
+    def executed_functions(self):
+        self.shared_functions()
+        return set(self._executed_by_any)
 
     # -- identity ------------------------------------------------------------
     def me(self):
